@@ -158,7 +158,7 @@ abbrev World := Str → Option Bytes
 /-! ## image_worker/content_injector.py -/
 
 /-- file name, extension, type, mode and the path to open, from one `src` argument -/
-def classify (src : Str) : Desc × Str :=
+def classifyRaw (src : Str) : Desc × Str :=
   let dotPos := rfindFrom 46 src (afterLast 47 src)
   match dotPos with
   | none => ({ name := basename (upper src), ext := [], kind := 2, mode := 0 }, src)
@@ -171,6 +171,12 @@ def classify (src : Str) : Desc × Str :=
     else if fileExtension = str "BAS" then ({ name := fileName, ext := fileExtension, kind := 0, mode := 0 }, src)
     else if fileExtension = str "CSV" then ({ name := fileName, ext := fileExtension, kind := 1, mode := 0 }, src)
     else ({ name := fileName, ext := fileExtension, kind := 2, mode := 0 }, src)
+
+/-- the descriptor handed to the leader block and to the listener is built from the first 8
+    characters of the name and the first 3 of the extension -/
+def classify (src : Str) : Desc × Str :=
+  let r := classifyRaw src
+  ({ r.1 with name := r.1.name.take 8, ext := r.1.ext.take 3 }, r.2)
 
 /-- the `while dataPos < dataMax` loop: data blocks of at most 254 bytes; fuel = |data| -/
 def writeData : Nat → TapeW → Listener → Bytes → Option (TapeW × Listener)
